@@ -559,7 +559,9 @@ class HamacherSum(SNorm):
         """
         a = scalar(a)
         b = scalar(b)
-        return np.where(a * b != 1.0, (a + b - 2.0 * a * b) / (1.0 - a * b), 1.0)
+        # a + b - 2ab is computed as (a - ab) + (b - ab): the direct form cancels catastrophically next to (1, 1)
+        ab = a * b
+        return np.where(ab != 1.0, ((a - ab) + (b - ab)) / (1.0 - ab), 1.0)
 
 
 class Maximum(SNorm):
